@@ -297,3 +297,185 @@ class VSeqPairs(Val):
 
 
 CONTRACTS.append(MatchTailC())
+
+
+# ------------------------------------------------------------------------------------------- MatchTail.__init__
+from pyvc.engine import VList, VClass, Obligation   # noqa: E402
+
+PArr = z3.ArraySort(z3.IntSort(), z3.SeqSort(z3.IntSort()))
+
+
+class IdxDict(Val):
+    """self.idx: defaultdict(list), byte -> list of [i, token[:i]]; modelled by the positions P[b] (the heads are checked
+    when the pair is appended)"""
+    mutable = True
+
+    def __init__(self, P):
+        self.P = P
+
+    def clone(self, memo):
+        return self
+
+    def havoc(self, X, hint):
+        self.P = X.fresh(PArr, hint + '_P')   # the same object, unknown content
+        return self
+
+
+class PosList(Val):
+    def __init__(self, d, byte):
+        self.d, self.byte = d, byte
+
+
+class MatchTailInit(Contract):
+    """establishes the index contract match_tail relies on:  for every byte b, idx[b] holds exactly the 1-based positions of b
+    in the token, in ascending order, each paired with the token head of that length; a byte that does not occur has no entry."""
+    props = ('C06',)
+    file = 'ombott/request_pkg/multipart.py'
+    qualname = 'MatchTail.__init__'
+    assumptions = ('defaultdict(list): idx[c] creates an empty list on first access; idx.get(c) is None iff idx[c] was never accessed',
+                   'membership is stated with the sequence predicate Contains(P[b], [q]); that a member has an index is sequence theory '
+                   '(the form the contract of match_tail uses)')
+    expected_labels = ('entry.pair_is_position_and_head', 'init.ascending', 'inv.entries_are_positions_of_their_byte', 'inv.ascending',
+                       'inv.every_position_is_listed', 'post.entries_are_positions_of_their_byte', 'post.ascending',
+                       'post.every_position_is_listed', 'post.token_and_length_stored')
+
+    def pre(self, X):
+        self.T = X.fresh(BytesSort, 'token')
+        self.me = VObj('MT', {})
+        self.idxd = None
+        self.ops = []
+        return {'self': self.me, 'token': VBytes(self.T)}
+
+    def construct_hook(self, X, pyclass, args, kwargs):
+        if getattr(pyclass, '__name__', '') == 'defaultdict' and len(args) == 1 and isinstance(args[0], VClass) \
+                and args[0].pyclass is list:
+            self.idxd = IdxDict(z3.K(z3.IntSort(), z3.Empty(z3.SeqSort(z3.IntSort()))))
+            return self.idxd
+        return None
+
+    def getitem_hook(self, X, obj, key):
+        if isinstance(obj, IdxDict) and isinstance(key, VInt):
+            return PosList(obj, key.t)
+        return None
+
+    def method_hook(self, X, obj, name, args, kwargs):
+        if isinstance(obj, PosList) and name == 'append' and len(args) == 1:
+            e = args[0]
+            ok = isinstance(e, VList) and len(e.items) == 2 and isinstance(e.items[0], VInt) and isinstance(e.items[1], VBytes)
+            X.prove('entry.pair_is_position_and_head',
+                    e.items[1].t == z3.SubSeq(self.T, 0, e.items[0].t) if ok else z3.BoolVal(False))
+            if ok:
+                d = obj.d
+                self.ops.append(('append', obj.byte, d.P[obj.byte], e.items[0].t))
+                d.P = z3.Store(d.P, obj.byte, z3.Concat(d.P[obj.byte], z3.Unit(e.items[0].t)))
+            return NONE
+        if isinstance(obj, PosList) and name == 'insert' and len(args) == 2 and isinstance(args[0], VInt) \
+                and z3.is_int_value(z3.simplify(args[0].t)) and z3.simplify(args[0].t).as_long() == 0:
+            e = args[1]
+            ok = isinstance(e, VList) and len(e.items) == 2 and isinstance(e.items[0], VInt) and isinstance(e.items[1], VBytes)
+            X.prove('entry.pair_is_position_and_head',
+                    e.items[1].t == z3.SubSeq(self.T, 0, e.items[0].t) if ok else z3.BoolVal(False))
+            if ok:
+                d = obj.d
+                self.ops.append(('insert0', obj.byte, d.P[obj.byte], e.items[0].t))
+                d.P = z3.Store(d.P, obj.byte, z3.Concat(z3.Unit(e.items[0].t), d.P[obj.byte]))
+            return NONE
+        return None
+
+    # ---- the three quantified facts, for the first n positions
+    def facts(self, P, n):
+        T = self.T
+        b, j, k, q = z3.Int('b!q'), z3.Int('j!q'), z3.Int('k!q'), z3.Int('q!q')
+        f1 = z3.ForAll([b, j], z3.Implies(z3.And(0 <= j, j < L(P[b])),
+                                          z3.And(P[b][j] >= 1, P[b][j] <= n, z3.BV2Int(T[P[b][j] - 1]) == b)))
+        f2 = z3.ForAll([b, j, k], z3.Implies(z3.And(0 <= j, j < k, k < L(P[b])), P[b][j] < P[b][k]))
+        f3 = z3.ForAll([b, q], z3.Implies(z3.And(1 <= q, q <= n, z3.BV2Int(T[q - 1]) == b), z3.Contains(P[b], z3.Unit(q))))
+        return f1, f2, f3
+
+    def inst(self, P, n, b, j, k, q):
+        """instances of the three facts at the given terms (quantifier-free)"""
+        T = self.T
+        out = []
+        for jj in (j, k):
+            out.append(z3.Implies(z3.And(0 <= jj, jj < L(P[b])),
+                                  z3.And(P[b][jj] >= 1, P[b][jj] <= n, z3.BV2Int(T[P[b][jj] - 1]) == b)))
+        out.append(z3.Implies(z3.And(0 <= j, j < k, k < L(P[b])), P[b][j] < P[b][k]))
+        out.append(z3.Implies(z3.And(1 <= q, q <= n, z3.BV2Int(T[q - 1]) == b), z3.Contains(P[b], z3.Unit(q))))
+        return out
+
+    def _inv(self, X):
+        n = X.v('__i0').t
+        idxd = X.env.get('idx')
+        if not isinstance(idxd, IdxDict):
+            return [('index_is_the_defaultdict', z3.BoolVal(False))]
+        # the three quantified facts are part of the invariant too; they are assumed at the loop head (after_havoc) and proved
+        # on entry / after the body / at the exit by instantiation at fresh skolems (init.*, inv.*, post.* obligations)
+        return [('progress', z3.And(n >= 0, n <= L(self.T)))]
+
+    def before_loop(self, X, k):
+        d = X.env.get('idx')
+        if isinstance(d, IdxDict):
+            self._goals(X, 'init', d.P, z3.IntVal(0), d.P, z3.IntVal(0), use_hyp=False)
+
+    @property
+    def loop_inv(self):
+        return {0: self._inv}
+
+    def after_havoc(self, X, k):
+        d = X.env.get('idx')
+        self.P_head = d.P if isinstance(d, IdxDict) else None
+        self.n_head = X.v('__i0').t
+        if self.P_head is not None:
+            for f in self.facts(self.P_head, self.n_head):
+                X.assume(f)
+
+    def _goals(self, X, tag, P_old, n_old, P_new, n_new, use_hyp=True):
+        """prove the three facts for (P_new, n_new) at fresh skolems from instances of the facts for (P_old, n_old)"""
+        T = self.T
+        b, j, k, q = (X.fresh(z3.IntSort(), s) for s in ('b0', 'j0', 'k0', 'q0'))
+        qf = [c for c in X.pc if not _has_quantifier(c)]
+        hyp = qf + (self.inst(P_old, n_old, b, j, k, q) if use_hyp else [])
+        # facts of sequence theory about the concatenations the body performed (valid lemmas, stated to help the solver)
+        Pb = P_old[b] if use_hyp else P_new[b]
+        for kind, byte, a, x in (self.ops if use_hyp else []):
+            if kind == 'append':
+                sq = z3.Concat(a, z3.Unit(x))
+                hyp += [L(sq) == L(a) + 1, sq[L(a)] == x] + \
+                       [z3.Implies(z3.And(0 <= t, t < L(a)), sq[t] == a[t]) for t in (j, k)]
+            else:
+                sq = z3.Concat(z3.Unit(x), a)
+                hyp += [L(sq) == L(a) + 1, sq[0] == x] + \
+                       [z3.Implies(z3.And(1 <= t, t <= L(a)), sq[t] == a[t - 1]) for t in (j, k)]
+            hyp.append(z3.Contains(sq, z3.Unit(q)) == z3.Or(z3.Contains(a, z3.Unit(q)), q == x))
+            Pb = z3.If(b == byte, sq, Pb)
+        # Pb: the entry of the generic byte after the recorded operations; that this IS what the body left in the index is an
+        # obligation of its own (array theory only)
+        X.driver.add_obligation(Obligation(f'{tag}.effect_of_the_body_on_the_index', qf, P_new[b] == Pb, 'prove', X.where,
+                                           list(X.taken), list(X.trace)))
+        g1 = z3.Implies(z3.And(0 <= j, j < L(Pb)), z3.And(Pb[j] >= 1, Pb[j] <= n_new, z3.BV2Int(T[Pb[j] - 1]) == b))
+        g2 = z3.Implies(z3.And(0 <= j, j < k, k < L(Pb)), Pb[j] < Pb[k])
+        g3 = z3.Implies(z3.And(1 <= q, q <= n_new, z3.BV2Int(T[q - 1]) == b), z3.Contains(Pb, z3.Unit(q)))
+        for nm, g in (('entries_are_positions_of_their_byte', g1), ('ascending', g2), ('every_position_is_listed', g3)):
+            X.driver.add_obligation(Obligation(f'{tag}.{nm}', hyp, g, 'prove', X.where, list(X.taken), list(X.trace)))
+
+    def end_of_body(self, X, k):
+        d = X.env.get('idx')
+        self._goals(X, 'inv', self.P_head, self.n_head, d.P, X.v('__i0').t)
+
+    def after_loop(self, X, k, how):
+        d = X.env.get('idx')
+        n = X.v('__i0').t
+        self._goals(X, 'post', self.P_head, self.n_head, d.P, L(self.T))
+        self.P_final = d.P
+
+    def post(self, X, ret):
+        f = self.me.fields
+        ok = f.get('idx') is X.env.get('idx') and isinstance(f.get('token'), VBytes) and isinstance(f.get('len'), VInt)
+        X.prove('post.token_and_length_stored',
+                z3.And(f['token'].t == self.T, f['len'].t == L(self.T)) if ok else z3.BoolVal(False))
+
+    def post_raise(self, X, exc):
+        X.prove('raises.nothing', z3.BoolVal(False))
+
+
+CONTRACTS.append(MatchTailInit())
